@@ -217,8 +217,10 @@ def ob_swap(dr, dc, sys, form, row_only=False, sys_form="list"):
     return Obligation("swap.is_transposition", cfg, build, call, oracle)
 
 
-def ob_swap_vector(dims, sys, column):
+def ob_swap_vector(dims, sys, column, dim_form="list"):
     cfg = {"dims": list(dims), "sys": list(sys), "column": column}
+    if dim_form != "list":
+        cfg["dim_form"] = dim_form
     n = len(dims)
     N = prod(dims)
 
@@ -226,7 +228,7 @@ def ob_swap_vector(dims, sys, column):
         return {"v": b.array("v", (N, 1) if column else (N,), "e")}
 
     def call(i):
-        return swap(i["v"], list(sys), list(dims))
+        return swap(i["v"], list(sys), int(dims[0]) if dim_form == "int" else list(dims))
 
     def oracle(i):
         perm = list(range(n))
@@ -405,6 +407,9 @@ def obligations(tier):
         obs.append(ob_swap((d, d), (d, d), (1, 2), "int"))
     for d, e in [(2, 3), (3, 2), (2, 4), (4, 2)] + ([(3, 4), (2, 5)] if T else []):
         obs.append(ob_swap((d, e), (d, e), (1, 2), "int"))
+        for col in (False, True):       # vectors with the dimension of the first subsystem given as a scalar
+            obs.append(ob_swap_vector((d, e), (1, 2), col, "int"))
+    obs.append(ob_swap_vector((2, 2), (1, 2), False, "int"))
     # (f) operators
     for n in [2, 3] + ([4] if T else []):
         vals = [1, 2, 3] if n < 4 else [1, 2]
